@@ -5,7 +5,7 @@ source map.  See DESIGN.md section 3.
 import os
 import re
 
-from extract import LostAnchor, locate, locate_closure, locate_macro, locate_struct, mask, match_brace, norm_ws
+from extract import LostAnchor, blank_comments, locate, locate_closure, locate_macro, locate_struct, mask, match_brace, norm_ws
 
 VERIF = os.path.dirname(os.path.dirname(os.path.abspath(__file__)))
 
@@ -410,7 +410,8 @@ class Unit:
                 it.real = real
                 if it.sig is not None and norm_ws(real['sig']) != it.sig:
                     raise LostAnchor('item %s: real signature changed: %r (expected %r)' % (it.id, norm_ws(real['sig']), it.sig))
-                body = real['body']
+                # R0: comments inside the body are dropped (replaced by blanks, line structure kept), so that anchors and rewrites see code only
+                body = blank_comments(real['body'])
                 body = apply_rewrites(it, body, rewrites_log)
                 body = apply_inserts(it, body)
                 body = insert_loops(it, body)
